@@ -87,7 +87,7 @@ def check_listener(ex, who, rx, stacks_by_addr, msgs, tag, dll='j1939-21'):
     return ok_all
 
 
-def h_xfer(ex, L, kind='p2p', shape='single', L2=0, kind2='p2p', reent=None, windows='sym', bystander=True, dll='j1939-21'):
+def h_xfer(ex, L, kind='p2p', shape='single', L2=0, kind2='p2p', reent=None, windows='sym', bystander=True, dll='j1939-21', addrs=None):
     w = W.World(ex, mode='interleave')
     fd = dll != 'j1939-21'
     seg = 60 if fd else 7
@@ -101,11 +101,12 @@ def h_xfer(ex, L, kind='p2p', shape='single', L2=0, kind2='p2p', reent=None, win
         w.reentrant = 'all'
     elif reent == 'one':
         w.reentrant = ex.fresh_int('reentrant_frame', 0, 2 * npk + 6)
-    sa = Stack(w, 'A', A, dll=dll, max_cmdt_packets=wa)
-    sb = Stack(w, 'B', B, dll=dll, max_cmdt_packets=wb)
+    a_, b_, c_ = addrs if addrs else (A, B, C)
+    sa = Stack(w, 'A', a_, dll=dll, max_cmdt_packets=wa)
+    sb = Stack(w, 'B', b_, dll=dll, max_cmdt_packets=wb)
     stacks = [sa, sb]
     if bystander:
-        sc = Stack(w, 'C', C, dll=dll, ecu_listener=True, max_cmdt_packets=1)
+        sc = Stack(w, 'C', c_, dll=dll, ecu_listener=True, max_cmdt_packets=1)
         stacks.append(sc)
     by_addr = {s.addr: s for s in stacks}
     w.run(until=T('1/100'))
@@ -171,6 +172,12 @@ def jobs(tier):
             J(L=L, kind='p2p', reent='all')
             J(L=L, kind='p2p', reent='one')
         J(L=15, kind='pdu2', reent='all')
+        # other address values, incl. 0 (valid and falsy) and 253
+        for ad in ([0, 0x20, 0x30], [0x10, 0, 0x30], [253, 1, 0]):
+            for L in (8, 15):
+                J(L=L, kind='p2p', addrs=ad)
+            J(L=15, kind='pdu2', addrs=ad)
+        J(L=15, kind='p2p', shape='twoway', L2=9, kind2='p2p', windows=(2, 1), addrs=[0, 253, 1])
         J(L=15, kind='p2p', shape='twoway', L2=9, kind2='p2p', windows=(1, 2))
         J(L=9, kind='p2p', shape='twoway', L2=15, kind2='p2p', windows=(3, 1))
         J(L=15, kind='p2p', shape='fanout', L2=9, kind2='pdu2', windows=(2, 2))
@@ -204,7 +211,7 @@ def meta(tier):
                    'max_cmdt_packets of both stacks symbolic 1..255 (concrete classes for the 255-packet transfers and most concurrent shapes)',
                    'schedules: all interleavings of frame deliveries and job passes (DESIGN 3, reductions 1-3); re-entrant delivery: none / all frames / one frame at a symbolic index',
                    '3 stacks (originator, responder, bystander with CA + unfiltered ECU listener); concurrent shapes: A->B || B->A, A->B || A->global',
-                   'addresses 0x10, 0x20, 0x30'],
+                   'addresses (0x10, 0x20, 0x30); for some shapes also (0, 0x20, 0x30), (0x10, 0, 0x30), (253, 1, 0)'],
         'outside': ['lengths 121..1777 except the listed ones', 'address values other than the listed ones',
                     'mixes of re-entrant and delayed frames beyond one re-entrant frame',
                     'protocol PGNs (request, TP.CM, TP.DT, address claim) as application PGNs',
